@@ -17,6 +17,7 @@ from __future__ import annotations
 
 import contextlib
 import io
+import itertools
 import os
 from collections import Counter
 
@@ -27,9 +28,10 @@ PID = "C10"
 LEVEL = "exploration"
 TECHNIQUE = ("exhaustive enumeration of all Unicode scalar values x text-bearing positions x conversion flag on the real "
              "write_rtf; byte-level read-back with the independent RTF reader and per-slot equality with the input string")
-LEVEL_TEXT = ("exploration, exhaustive: the input space (1.1M code points x 12 positions x 2 flags x 2 string forms) is finite and "
-              "is enumerated completely by the thorough tier (the quick tier enumerates all code points in body cells and the "
-              "class-boundary code points in all positions); there is no state graph to search")
+LEVEL_TEXT = ("exploration, exhaustive: the input space (1.1M code points x 12 positions x 2 flags) is finite and "
+              "is enumerated completely by the thorough tier for whole strings, and for the inner form in body cells (the quick tier enumerates "
+              "in body cells all code points with conversion on and the BMP plus one seed-rotated plane with conversion off, and the "
+              "class-boundary code points and their ordered pairs in all positions); there is no state graph to search")
 LEVEL_NOTE = ("trusted: mc/rtfreader decoding rules (cp1252 for plain \\ansi, \\uN/\\ucN, surrogate pairing); the three raw RTF "
               "metacharacters are outside the space because raw RTF pass-through is a documented feature")
 
@@ -69,6 +71,20 @@ def case_cps(case: dict) -> list:
     if "cps" in case:
         return [cp for cp in case["cps"] if in_space(cp, case["conv"])]
     return [cp for cp in range(case["lo"], case["hi"]) if in_space(cp, case["conv"])]
+
+
+def pair_strings(case: dict) -> list:
+    """form 'pairs': every ordered pair of the boundary code points with first element in [lo, hi) as a two-character
+    string (adjacent escapes, surrogate pairs next to each other, fallback characters next to digits ...)."""
+    conv = case["conv"]
+    b = [cp for cp in BOUNDARY if in_space(cp, conv)]
+    out = []
+    for x in b[case["lo"]:case["hi"]]:
+        for y in b:
+            if conv and (x, y) in ((0x3E, 0x3D), (0x3C, 0x3D)):
+                continue  # >= and <= are conversion tokens
+            out.append((x, chr(x) + chr(y)))
+    return out
 
 
 def slot_string(cp: int, form: str, fill: int) -> str:
@@ -322,26 +338,63 @@ def subline_by_bypasses_escaping() -> bool:
     return _BYPASS
 
 
-def classify(pos: str, cp: int, s: str, got: str, avail: Counter):
-    """-> (klass or None, errors consumed).  A class is returned only if the observed text and the reader
-    errors are exactly what the named mechanism produces for this string."""
-    raw, raw_errs = raw_utf8_as_ansi(s)
-    have = all(avail[k] >= v for k, v in raw_errs.items())
-    latin1 = 0xA0 <= cp <= 0xFF and cp != 0xB1
-    if pos == "subline_by" and got == raw and have and cp >= 0x80:
-        if not latin1 or subline_by_bypasses_escaping():
-            return "subline-by-heading-unescaped", raw_errs
-    if latin1 and got == s.encode("utf-8").decode("cp1252"):
-        return "latin1-raw-utf8-under-ansi", Counter()
-    if cp >= 0x18000:
-        # a single \u escape carrying cp - 65536, which is above 32767
-        need = ("u-escape-out-of-range", str(cp - 65536))
-        if got == s.replace(chr(cp), "�") and avail[need] >= 1:
-            return "astral-u-escape-out-of-range", Counter({need: 1})
-    elif cp > 0xFFFF:
-        # the same single escape, but cp - 65536 <= 32767 is a valid \u value: another BMP character is read
-        if got == s.replace(chr(cp), chr(cp - 65536)):
-            return "astral-u-escape-wraps-into-bmp", Counter()
+MECHANISMS = ("latin1-raw-utf8-under-ansi", "astral-u-escape-out-of-range", "astral-u-escape-wraps-into-bmp",
+              "subline-by-heading-unescaped")
+
+
+def _applies(mech: str, cp: int) -> bool:
+    if mech == "latin1-raw-utf8-under-ansi":
+        return 0xA0 <= cp <= 0xFF and cp != 0xB1
+    if mech == "astral-u-escape-out-of-range":
+        return cp >= 0x18000
+    if mech == "astral-u-escape-wraps-into-bmp":
+        return 0x10000 <= cp <= 0x17FFF
+    if mech == "subline-by-heading-unescaped":
+        return cp >= 0x80
+    return False
+
+
+def predict(s: str, mechs):
+    """What the reader must see for input s if exactly the mechanisms `mechs` are at work and every other
+    character is written correctly -> (text, Counter of reader errors)."""
+    out, errs = [], Counter()
+    for ch in s:
+        cp = ord(ch)
+        m = next((m for m in mechs if _applies(m, cp)), None)
+        if m is None:
+            out.append(ch)
+        elif m in ("latin1-raw-utf8-under-ansi", "subline-by-heading-unescaped"):
+            # the UTF-8 bytes of the character, read byte by byte as cp1252 (C3 81/8D/8F/90/9D: second byte undefined there)
+            t, e = raw_utf8_as_ansi(ch)
+            out.append(t)
+            errs.update(e)
+        elif m == "astral-u-escape-out-of-range":
+            # a single \u escape carrying cp - 65536, which is above 32767
+            out.append("\ufffd")
+            errs[("u-escape-out-of-range", str(cp - 65536))] += 1
+        else:
+            # the same single escape, but cp - 65536 <= 32767 is a valid \u value: another BMP character is read
+            out.append(chr(cp - 65536))
+    return "".join(out), errs
+
+
+def classify(pos: str, s: str, got: str, avail: Counter):
+    """-> (tuple of mechanism names or None, errors consumed).  Mechanisms are returned only if the observed text and
+    the reader errors are exactly what they produce for this string, each returned mechanism applies to a character
+    of the string, and all other characters were read back intact."""
+    cps = [ord(c) for c in s]
+    if pos == "subline_by":
+        # in this position 'Latin-1 kept raw' and 'heading bypasses the text pipeline' predict the same bytes for
+        # U+00A0-00FF; the probe decides which mechanism is present in this tree
+        cand = ["subline-by-heading-unescaped"] if subline_by_bypasses_escaping() else list(MECHANISMS[:3])
+    else:
+        cand = list(MECHANISMS[:3])
+    cand = [m for m in cand if any(_applies(m, cp) for cp in cps)]
+    for k in range(1, len(cand) + 1):
+        for sub in itertools.combinations(cand, k):
+            text, errs = predict(s, sub)
+            if text == got and all(avail[e] >= v for e, v in errs.items()):
+                return sub, errs
     return None, Counter()
 
 
@@ -367,11 +420,15 @@ def _write_and_read(document):
 
 def eval_case(case: dict) -> dict:
     pos, conv, form, fill = case["pos"], case["conv"], case.get("form", "whole"), case.get("fill", 0)
-    cps = case_cps(case)
+    if form == "pairs":
+        ps = pair_strings(case)
+        cps, strings = [p[0] for p in ps], [p[1] for p in ps]
+    else:
+        cps = case_cps(case)
+        strings = [slot_string(cp, form, fill) for cp in cps]
     n = len(cps)
     if n == 0:
         return {"viol": [], "nt": False, "cnt": {"empty-case": 1}}
-    strings = [slot_string(cp, form, fill) for cp in cps]
     try:
         doc = _write_and_read(build(pos, strings, conv))
     except Exception as e:
@@ -384,9 +441,6 @@ def eval_case(case: dict) -> dict:
         g = groups.setdefault((klass, sig), {"n": 0, "detail": detail})
         g["n"] += 1
 
-    if doc.charset != "ansi" or doc.ansicpg not in (None, 1252):
-        # the comparison below is still made under the code page the file declares
-        pass
     obs, problems = observe(pos, doc, n)
     for sig, detail in problems:
         add(None, f"structure-{sig}", f"{pos} conv={conv}: {detail}")
@@ -399,17 +453,19 @@ def eval_case(case: dict) -> dict:
         checked += 1
         got, stray = o
         rc = rclass(cp)
+        cnt[f"compared:{rc}"] += 1
         if got == s and not stray:
             cnt[f"intact:{rc}"] += 1
             continue
         if stray and got == s:
             add(None, f"stray-control-{pos}-{rc}", f"{pos} conv={conv} form={form}: U+{cp:04X} {s!r} read back with extra events {stray[:3]!r}")
             continue
-        klass, used = classify(pos, cp, s, got, avail) if not stray else (None, Counter())
+        mechs, used = classify(pos, s, got, avail) if not stray else (None, Counter())
         avail.subtract(used)
-        if klass:
-            cnt[f"known:{klass}"] += 1
-            add(klass, klass, f"{pos} conv={conv} form={form}: U+{cp:04X} {s!r} read back as {got!r}")
+        if mechs:
+            for klass in mechs:
+                cnt[f"known:{klass}"] += 1
+                add(klass, klass, f"{pos} conv={conv} form={form}: U+{cp:04X} {s!r} read back as {got!r}")
         else:
             add(None, f"altered-{pos}-{rc}" + ("" if conv else "-convoff"),
                 f"{pos} conv={conv} form={form}: U+{cp:04X} {s!r} read back as {got!r}" + (f" with events {stray[:3]!r}" if stray else ""))
@@ -427,7 +483,10 @@ def eval_case(case: dict) -> dict:
     if pos != "body" and form == "inner" and conv:
         sample = {"case": {k: v for k, v in case.items() if k != "cps"}, "first": strings[0], "read": obs[0][0] if obs[0] else None,
                   "slots": n, "reader_errors": len(doc.errors)}
-    return {"viol": viol, "nt": any(cp >= 0x80 for cp in cps), "cnt": dict(cnt), "sample": sample}
+    res = {"viol": viol, "nt": any(cp >= 0x80 for cp in cps), "cnt": dict(cnt)}
+    if sample is not None:
+        res["sample"] = sample
+    return res
 
 
 # --------------------------------------------------------------------------- enumeration
@@ -446,15 +505,34 @@ def space_size(conv: bool) -> int:
     return 0x110000 - 2048 - 65 - 3 - (2 if conv else 0)
 
 
+def selfcheck():
+    """hand-computed expectations for the predictors and the space (harness guard)"""
+    assert raw_utf8_as_ansi("é") == ("Ã©", Counter()), raw_utf8_as_ansi("é")
+    assert raw_utf8_as_ansi("Á") == ("Ã�", Counter({("byte-undefined-in-code-page", "0x81"): 1}))
+    assert predict("x\U0001F600é", MECHANISMS[:3])[0] == "x�Ã©"
+    assert predict("\U00010041±", MECHANISMS[:3])[0] == "A±"
+    assert space_size(False) == sum(1 for r in ((0x20, 0x7F), (0xA0, 0xD800), (0xE000, 0x110000)) for _ in range(*r)) - 3
+    assert not in_space(0x5C, False) and not in_space(0x5E, True) and in_space(0x5E, False) and not in_space(0xD800, False)
+    good = parse(b"{\\rtf1\\ansi {\\pard x\\uc1\\u-10179*\\uc1\\u-8704*\\'e9\\u945?y\\par}}")
+    assert good.errors == [] and good.pages[0].blocks[0].text == "x\U0001F600éαy", (good.errors, good.pages[0].blocks[0].text)
+
+
 def plan(run):
     quick = run.tier == "quick"
+    try:
+        selfcheck()
+    except AssertionError as e:
+        run.harness_errors.append({"layer": "selfcheck", "case": None, "error": f"self-check failed: {e!r}"})
+        return
     run.rule = ("every Unicode scalar value except U+0000-001F, U+007F-009F, backslash and braces (conversion on: also ^ _); "
                 "one case = one document packing a code-point range into one position with one conversion flag and one form "
                 "(whole = the user string is the character alone, i.e. at both string boundaries; inner = between two filler "
-                "characters). quick: all code points x {conversion on, off} as whole strings in body cells + "
+                "characters). quick: as whole strings in body cells all code points with conversion on, and with conversion off the BMP plus "
+                f"one supplementary plane rotated by the seed (plane {1 + run.seed % 16} in this run; all 1.1M x 2 do not fit the quick budget) + "
                 f"{len(BOUNDARY)} class-boundary code points x 12 positions x {{on, off}} x {{whole, inner}} (inner filler pair rotated by seed). "
                 "thorough: all code points x 12 positions x {on, off} as whole strings, + inner form in body cells, + boundary layer "
-                "with every filler pair. non-trivial = the document contains a code point >= U+0080; distinct = distinct case")
+                "with every filler pair. both tiers: every ordered pair of boundary code points as a two-character string (quick: body, title; "
+                "thorough: six positions). non-trivial = the document contains a code point >= U+0080; distinct = distinct case")
     run.assumptions = [
         "reader decoding rules: \\ansi without \\ansicpg = cp1252; \\uN signed 16 bit followed by \\ucN fallback characters; surrogate pairs combined",
         "U+005C, U+007B, U+007D are not in the space (raw RTF pass-through is a documented feature); ^ and _ only with conversion off",
@@ -472,13 +550,20 @@ def plan(run):
                 for fl in fills:
                     bcases.append({"pos": pos, "conv": conv, "form": "inner", "fill": fl, "cps": BOUNDARY[k:k + step]})
     run.layer("boundary-code-points-all-positions", fn, bcases, chunk=4, total=len(bcases))
+    pcases = [{"pos": pos, "conv": conv, "form": "pairs", "lo": lo, "hi": lo + 14}
+              for pos in (("body", "title") if quick else ("body", "colheader", "title", "footnote_table", "source_para", "page_header"))
+              for conv in (True, False) for lo in range(0, len(BOUNDARY), 14)]
+    run.layer("boundary-pairs", fn, pcases, chunk=2, total=len(pcases))
 
     def full(pos, form, convs=(True, False)):
         return [{"pos": pos, "conv": conv, "form": form, "lo": lo, "hi": hi}
                 for conv in convs for lo, hi in ranges(PER_DOC[pos])]
 
     body = full("body", "whole")
-    # largest documents first would not matter: all the same size; interleave on/off for balance
+    plane = 1 + run.seed % 16
+    if quick:
+        # conversion off: the BMP and one supplementary plane (rotated by the seed); everything with conversion on
+        body = [c for c in body if c["conv"] or c["lo"] < 0x10000 or plane in (c["lo"] >> 16, (c["hi"] - 1) >> 16)]
     run.layer("all-code-points-body-whole", fn, body, chunk=4, total=len(body))
     if not quick:
         inner = full("body", "inner")
@@ -488,15 +573,18 @@ def plan(run):
             ch = 4 if PER_DOC[pos] >= 2000 else (20 if pos == "page_by" else 100)
             run.layer(f"all-code-points-{pos}-whole", fn, cases, chunk=ch, total=len(cases))
     # vacuity guards / accounting
-    want = space_size(True) + space_size(False)
     got = run.cnt.get("checked:body", 0)
     nb = sum(1 for cp in BOUNDARY for conv in (True, False) if in_space(cp, conv))
-    exp_body = want * (1 if quick else 2) + nb * (1 + len(fills))
+    npairs = sum(len(pair_strings({"conv": conv, "lo": 0, "hi": len(BOUNDARY)})) for conv in (True, False))
+    nbody = sum(len(case_cps(c)) for c in body)
+    if not quick and nbody != space_size(True) + space_size(False):
+        run.harness_errors.append({"layer": "accounting", "case": None, "error": f"body layer enumerates {nbody} slots, space has {space_size(True) + space_size(False)}"})
+    exp_body = nbody * (1 if quick else 2) + nb * (1 + len(fills)) + npairs
     if all(l["completed"] for l in run.layers) and got != exp_body and not run.viol:
         run.harness_errors.append({"layer": "accounting", "case": None,
                                    "error": f"body slots checked {got}, expected {exp_body}"})
     for need in ("latin1", "U+00B1", "bmp-low", "bmp-high", "astral", "ascii"):
-        if not any(k.endswith(":" + need) for k in run.cnt) and not any(("-" + need) in s for s in run.viol) and not run.known_seen:
+        if not run.cnt.get("compared:" + need):
             run.harness_errors.append({"layer": "vacuity", "case": None, "error": f"no code point of class {need} was compared"})
     run.extra["space"] = {"code_points_conversion_on": space_size(True), "code_points_conversion_off": space_size(False),
-                          "positions": list(POSITIONS)}
+                          "positions": list(POSITIONS), "body_slots_enumerated_this_run": nbody}
